@@ -90,6 +90,23 @@ def arrays_for(p, rng, quick):
             out.append(("clamp_lo_%d" % dv, a))
             a = z(); a[V:] = 1; a[V: V + (m - V) // 3] = 2
             out.append(("clamp_mix_%d" % dv, a))
+    if not quick:
+        # thorough: every number of zero registers within +-40 of the switch from linear counting to the
+        # bias-corrected estimate (other registers at rank 1, resp. a 1/2 mix), and random register arrays
+        for dv in range(-40, 41):
+            V = vthr - dv
+            if 1 <= V < m and dv not in (0, 1, 2, 5, 10):
+                a = z(); a[V:] = 1
+                out.append(("sweep_lo_%d" % dv, a))
+                a = z(); a[V:] = 1; a[V: V + (m - V) // 2] = 2
+                out.append(("sweep_mix_%d" % dv, a))
+        for j in range(40):
+            hi = rng.choice([1, 2, 3, 5, 8, mx])
+            a = np.array([rng.randint(0, hi) for _ in range(m)], np.uint8) if m <= 4096 else \
+                np.random.RandomState(rng.randrange(2**31)).randint(0, hi + 1, m).astype(np.uint8)
+            if j % 3 == 0:
+                a[np.random.RandomState(j).rand(m) < rng.choice([0.3, 0.6, 0.9])] = 0
+            out.append(("random_%d" % j, a))
     # raw estimate beyond the last table point with zero registers present (clamps to bias[-1])
     a = z(); a[1:] = 6
     out.append(("one_zero_high", a))
